@@ -7,7 +7,7 @@
 //   - every file under <verif>/hooks/<pkgdir>/<f>.go to <repo>/<pkgdir>/zz_verif_<f>.go (//go:build verif),
 //   - a rewritten copy (derived from the CURRENT working tree) of every non-test, non-generated Go file of the
 //     repository's own packages that imports "sync", contains a go statement or uses time.NewTicker & co:
-//     "sync" -> zzverif/vsync, `go f(x)` -> vsched.Go(...), time.NewTicker/Ticker/Sleep/After -> vtime.
+//     "sync" -> zzverif/vsync, `go f(x)` -> vsched.Go(...), time.NewTicker/Ticker/Sleep/After/Now/Since/Until -> vtime.
 //
 // Standard library only.
 package main
@@ -190,7 +190,7 @@ type rw struct {
 // fpName: when non-empty, function-entry scheduling points are inserted (value = package directory)
 var fpName string
 
-var vtimeSyms = map[string]bool{"NewTicker": true, "Ticker": true, "Sleep": true, "After": true, "Tick": true}
+var vtimeSyms = map[string]bool{"NewTicker": true, "Ticker": true, "Sleep": true, "After": true, "Tick": true, "Now": true, "Since": true, "Until": true}
 
 func rewrite(path string, src []byte) ([]byte, bool, error) {
 	fset := token.NewFileSet()
